@@ -648,13 +648,16 @@ def w_pruned(failure, tier):
     for i in range(24):
         n = 24 if i < 16 else 2
         body = ' '.join(['alpha'] + ['pad%d' % (j % 5) for j in range(n - 1)]) + (' beta' if i % 3 == 0 else '')
-        docs.append({"_id": "d%02d" % i, "body": body, "delta": float([1, 0, -1, -2, -3][i % 5])})
-    add = {"numeric_fields": [{"name": "delta", "i64": False, "fast": True, "stored": True}]}
+        docs.append({"_id": "d%02d" % i, "body": body, "delta": float([1, 0, -1, -2, -3][i % 5]), "pop": 1 + 10 * ((i * 7) % 10)})
+    add = {"numeric_fields": [{"name": "delta", "i64": False, "fast": True, "stored": True}, {"name": "pop", "i64": True, "fast": True, "stored": True}]}
     base_q = {"type": "term", "field": "body", "value": "alpha"}
     queries = [
         "alpha", "alpha beta",
         {"type": "function_score", "query": base_q, "functions": [{"type": "field_value_factor", "field": "delta", "factor": 1.0}], "score_mode": "sum", "boost_mode": "multiply"},
         {"type": "script_score", "query": base_q, "script": "_score * delta", "boost": 1.0},
+        # scores RAISED far above the BM25 bound of the term
+        {"type": "function_score", "query": base_q, "functions": [{"type": "field_value_factor", "field": "pop", "factor": 1.0}], "boost_mode": "multiply"},
+        {"type": "script_score", "query": base_q, "script": "_score + pop"},
     ]
     # a min_score that drops about half of the documents (calibrated on the exhaustive strategy): the score hook then
     # rejects candidates in the middle of a pruned run
@@ -914,6 +917,27 @@ def w_rescore(failure, tier):
                             observed='hits %s' % [(d, round(sc, 4)) for (d, sc) in got],
                             expected='%s (window combined and re-sorted, min_score rejections dropped, non-matching window hits and the tail untouched)' % [(d, round(sc, 4)) for (d, sc) in want])
             n += 1
+    # a window hit rejected by the rescore query: the hits behind the window were never rescored and keep their order
+    ddocs = [{"_id": x, "body": "rust" + " filler" * i, "lang": x.lower()} for i, x in enumerate("ABCDE")]
+    dadd = {"keyword_fields": [{"name": "lang", "stored": True, "indexed": True, "fast": True}]}
+    for window in (2, 3):
+        rq = {"window_size": window, "score_mode": "multiply",
+              "query": {"type": "function_score", "query": {"type": "match_all"},
+                        "functions": [{"type": "weight", "weight": 0.0, "filter": {"KeywordEq": {"field": "lang", "value": "a"}}},
+                                      {"type": "weight", "weight": 0.01, "filter": {"KeywordEq": {"field": "lang", "value": "b"}}},
+                                      {"type": "weight", "weight": 0.02, "filter": {"KeywordEq": {"field": "lang", "value": "c"}}}],
+                        "score_mode": "sum", "boost_mode": "replace", "min_score": 0.005}}
+        out, err = drive_search({"schema": None, "schema_add": dadd, "batches": [ddocs], "requests": [dict(REQ_BASE, query="rust", limit=10, execution="bm25", rescore=rq)]})
+        if out is None or 'ok' not in out[0]:
+            return dict(found=False, note='search driver failed: %s' % (err or str(out)[:200]))
+        got = [h['doc_id'] for h in out[0]['ok']['hits']]
+        n += 1
+        # A is rejected; the rescored survivors (B, or C then B ... by new score) come first, then the untouched tail in its old order
+        want = (["B"] if window == 2 else ["C", "B"]) + (["C", "D", "E"] if window == 2 else ["D", "E"])
+        if got != want:
+            return dict(found=True, cmd='%s search <<< hex(json)' % BIN,
+                        input='documents A..E ranked A,B,C,D,E by "rust"; rescore window %d with a function_score that rejects A (min_score) and scales B by 0.01, C by 0.02' % window,
+                        observed='hits %s' % got, expected='%s: the surviving rescored hits re-ordered, the hits behind the window in their old order' % want)
     return dict(found=False, note='rescore: %d (rescore query, window, mode) combinations agree with the documented semantics' % n)
 
 
@@ -1877,7 +1901,76 @@ def w_nested_types(failure, tier):
     return dict(found=False, note='nested value types: %d values get the same answer from add_document at the top level and inside a nested object' % n)
 
 
+def w_optional_clauses(failure, tier):
+    """queries in which a document can match without containing any scored term (an optional should next to a filter or a
+    must, a phrase or constant_score alternative): the hits are exactly the documents the boolean semantics accept"""
+    skip = set((failure or {}).get('skip_cases') or [])
+    if 'unscored-alternatives-lose-documents' in skip:
+        return dict(found=False, note='optional clauses: the cases of this generator are an open known finding (skipped)')
+    docs = [{"_id": "d1", "body": "rust engine", "lang": "en"}, {"_id": "d2", "body": "quick brown fox", "lang": "en"}, {"_id": "d3", "body": "rust moteur", "lang": "fr"}]
+    add = {"keyword_fields": [{"name": "lang", "stored": True, "indexed": True, "fast": True}]}
+    t = lambda v: {"type": "term", "field": "body", "value": v}
+    en = {"KeywordEq": {"field": "lang", "value": "en"}}
+    cases = [
+        ({"type": "bool", "filter": [en], "should": [t("rust")]}, ["d1", "d2"]),
+        ({"type": "bool", "must": [{"type": "match_all"}], "should": [t("rust")]}, ["d1", "d2", "d3"]),
+        ({"type": "bool", "must": [{"type": "phrase", "field": "body", "terms": ["quick", "brown"]}], "should": [t("rust")]}, ["d2"]),
+        ({"type": "dis_max", "queries": [t("rust"), {"type": "phrase", "field": "body", "terms": ["quick", "brown"]}]}, ["d1", "d2", "d3"]),
+        ({"type": "bool", "should": [t("moteur"), {"type": "constant_score", "filter": en}]}, ["d1", "d2", "d3"]),
+    ]
+    n = 0
+    for layout in ([docs], [docs[:1], docs[1:2], docs[2:]]):
+        for ex in ("bm25", "wand"):
+            reqs = [dict(REQ_BASE, query=q, limit=100, execution=ex) for (q, _w) in cases]
+            out, err = drive_search({"schema": None, "schema_add": add, "batches": layout, "requests": reqs})
+            if out is None:
+                return dict(found=False, note='search driver failed: %s' % err)
+            for (q, want), o in zip(cases, out):
+                n += 1
+                got = sorted(h['doc_id'] for h in o['ok']['hits']) if 'ok' in o else str(o)[:120]
+                if got != want:
+                    return dict(found=True, cmd='%s search <<< hex(json)' % BIN, case='unscored-alternatives-lose-documents',
+                                input='d1 {rust engine, en}, d2 {quick brown fox, en}, d3 {rust moteur, fr} in %d segment(s); query %s, execution %s' % (len(layout), _json.dumps(q), ex),
+                                observed='hits %s' % got, expected='%s' % want)
+    return dict(found=False, note='optional clauses: %d (query, layout, strategy) combinations return exactly the matching documents' % n)
+
+
+def w_bmw_blocks(failure, tier):
+    """block-max pruning with small blocks: a term whose current block has a low bound and whose NEXT block holds the best
+    document - bmw must return what the exhaustive executor returns"""
+    skip = set((failure or {}).get('skip_cases') or [])
+    if 'bmw-skips-better-block' in skip:
+        return dict(found=False, note='bmw block skipping: the case of this generator is an open known finding (skipped)')
+    docs = []
+    for i in range(30):
+        if i in (0, 1):
+            body = "alpha beta f f f f"
+        elif i in (2, 3, 5):
+            body = "alpha f f f f f"
+        elif i == 4:
+            body = "alpha alpha alpha alpha alpha f"
+        else:
+            body = "beta beta f f f f"
+        docs.append({"_id": "d%02d" % i, "body": body})
+    n = 0
+    for bs in (2, 3, 4):
+        reqs = [dict(REQ_BASE, query="alpha beta", limit=1, execution=ex, bmw_block_size=bs) for ex in ("bm25", "wand", "bmw")]
+        out, err = drive_search({"schema": None, "batches": [docs], "requests": reqs})
+        if out is None or any('ok' not in o for o in out):
+            return dict(found=False, note='search driver failed: %s' % (err or str(out)[:200]))
+        res = [[(h['doc_id'], round(h['score'], 4)) for h in o['ok']['hits']] for o in out]
+        n += 1
+        if res[1] != res[0] or res[2] != res[0]:
+            return dict(found=True, cmd='%s search <<< hex(json)' % BIN, case='bmw-skips-better-block',
+                        input='30 six-token documents: d00 d01 "alpha beta ..", d02 d03 d05 "alpha ..", d04 "alpha" x5, d06.. "beta beta .."; query "alpha beta", limit 1, bmw_block_size %d' % bs,
+                        observed='wand %s, bmw %s' % (res[1], res[2]), expected='%s (bm25)' % res[0])
+    return dict(found=False, note='bmw block skipping: %d block sizes agree with bm25' % n)
+
+
 GENERATORS = {
+    ('U53', 'skip_to_pivot'): w_bmw_blocks,
+    ('U52', 'scan_or_terms'): w_optional_clauses,
+    ('U52', 'empty_terms_answer'): w_optional_clauses,
     ('U40', 'nested_text_value'): w_nested_types,
     ('U40', 'nested_keyword_value'): w_nested_types,
     ('U40', 'nested_numeric_value'): w_nested_types,
@@ -1970,6 +2063,7 @@ GENERATORS = {
     ('U2', 'last_pending_fold'): w_pending,
     ('U16', 'admission'): w_pruned,
     ('U16', 'push_top_k'): w_pruned,
+    ('U51', 'ranked_execution'): w_pruned,
     ('U12', 'advance_to'): w_pruned,
     ('U12', 'new'): w_pruned,
     ('U12', 'score_candidate'): w_pruned,
